@@ -7,7 +7,9 @@ PROP = "C12"
 DIR = None
 T = {"a.txt": b"A", "x.tmp": b"X0", "y.tmp": b"Y0", ".DS_Store": b"finder", "sub": DIR, "sub/s.txt": b"S", "sub/x.tmp": b"SX",
      "d": DIR, "d/c.txt": b"C", "d/x.tmp": b"DX", "d/sub": DIR, "d/sub/t.txt": b"T", "patterns.lst": b"*.tmp\n\nsub/"}
-PSETS = [[], ["x.tmp"], ["*.tmp"], ["sub/"], ["sub"], ["*.tmp", "sub/"], ["x.tmp", "x.tmp"], ["y.tmp", "*.tmp"]]
+PSETS = [[], ["x.tmp"], ["*.tmp"], ["sub/"], ["sub"], ["*.tmp", "sub/"], ["x.tmp", "x.tmp"], ["y.tmp", "*.tmp"],
+         # patterns with a separator are anchored at the command's root; a negated pattern re-includes (the last match decides)
+         ["d/sub/t.txt"], ["sub/x.tmp"], ["d/sub/"], ["/x.tmp"], ["*.tmp", "!y.tmp"], ["sub/t.txt", "d/*.tmp"]]
 
 
 def file_patterns(tree, o):
@@ -30,7 +32,12 @@ def effective(pre, o):
     given = list(o.get("i") or []) + file_patterns(pre, o)
     base = list(prev) if prev else list(ref.DEFAULT_PATTERNS)
     # ascmhl folders and .DS_Store are always excluded, whatever the recorded list says
-    return base + given + [p for p in ref.DEFAULT_PATTERNS if p not in base], given
+    # new patterns are appended without duplicates (the order matters once a negated pattern is in the list)
+    eff = list(base)
+    for g in given:
+        if g not in eff:
+            eff.append(g)
+    return eff + [p for p in ref.DEFAULT_PATTERNS if p not in eff], given
 
 
 def scope_rel(R, p):
@@ -198,7 +205,7 @@ def judge(pre, op, post, res, obs, meta):
             V("ignored-change-reported", f"{ops.label(op)}: exit {res.exit} although every difference concerns ignored paths "
               f"{ignored_paths}\n{res.err[-300:]}", exit=res.exit)
         for p in ignored_paths:
-            if not ref.is_in_ascmhl(p) and any(p in ln and ("new file" in ln or ln.startswith("  ")) for ln in res.err.splitlines()):
+            if not ref.is_in_ascmhl(p) and any(p in ln.split() and ("new file" in ln or ln.startswith("  ")) for ln in res.err.splitlines()):
                 V("ignored-path-reported", f"{ops.label(op)}: ignored path {p} reported:\n{res.err[-300:]}", shape=shape(p))
     return v
 
@@ -215,7 +222,7 @@ def enabled(tree, meta):
     if g < mg:
         m2 = dict(meta, cmds=g + 1)
         cont = g + 1 < mg
-        for ps in PSETS if g < 2 or meta.get("rich") else PSETS[:5]:
+        for ps in PSETS if g < 2 or meta.get("rich") else PSETS[:5] + PSETS[8:10]:
             out.append((c("", ["md5"], i=ps), m2, cont))
         out.append((c("", ["md5"], ii="patterns.lst"), m2, cont))
         out.append((c("", ["md5"], ii="patterns.lst", i=["a.txt"]), m2, cont))
